@@ -164,8 +164,10 @@ func (f *freshnessCalculator) CalculateFreshness(
 		usefulLife = maxAge // Response is fresh for max-age seconds
 	}
 
-	// Expires and heuristics apply only when there is no (valid) max-age; max-age=0 is explicit.
-	if !hasMaxAge {
+	// Expires and heuristics apply only when there is no max-age; max-age=0 is explicit, and so is
+	// a max-age whose argument cannot be used (negative, not a number): that response is stale
+	// (RFC 9111 §4.2.1), not fresh by a heuristic.
+	if !resCC.MaxAgePresent() {
 		expires, found, valid := entry.ExpiresHeader()
 		switch {
 		case valid && expires.After(date):
